@@ -117,6 +117,10 @@ def hook(site, item):
             t.pop()
         elif kind == "clear":
             del t[:]
+        elif kind == "del_tail":
+            del t[len(t) // 2:]
+        elif kind == "burst":
+            t.extend(b"Z" * 40)
     return 0
 
 
